@@ -27,6 +27,8 @@ type Req struct {
 type Case struct {
 	Palette []string `json:"palette"`
 	Reqs    []Req    `json:"reqs"`
+	// Initial: unmanaged running configuration the device holds before the first request
+	Initial []vlib.LeafSel `json:"initial,omitempty"`
 }
 
 var (
@@ -53,6 +55,9 @@ func genFrags(t *rapid.T, label string) []int {
 
 func gen(t *rapid.T) *Case {
 	c := &Case{Palette: vlib.GenPalette(t)}
+	if rapid.IntRange(0, 2).Draw(t, "has-initial") == 0 {
+		c.Initial = vlib.GenLeafSels(t, vlib.UniPlain, 1, 6, "init")
+	}
 	o := vlib.HistGenOpts{Universe: vlib.UniPlain, AllowOrphan: true, Forms: []string{"typed", "string", "json"}}
 	n := rapid.IntRange(1, 6).Draw(t, "nreq")
 	for i := 0; i < n; i++ {
@@ -182,7 +187,7 @@ func Exec(c *Case) (nontrivial bool, labels []string, fail *vlib.Failure) {
 	ctx := context.Background()
 	env := vlib.MustEnv()
 	deco := vlib.NewCacheDeco(env.Cache)
-	hc := &vlib.HistCase{Universe: "plain", Palette: c.Palette}
+	hc := &vlib.HistCase{Universe: "plain", Palette: c.Palette, Initial: c.Initial}
 	h, err := vlib.NewHistEnv(ctx, env, hc, vlib.HistEnvOpts{DS: vlib.DSOpts{Cache: deco, Validation: valCfg()}})
 	if err != nil {
 		harnessErr(err)
